@@ -1,4 +1,4 @@
-CONSTANTS MaxScript = 0 MaxN = 3 Dev = {"PathLen", "SkipCount"}
+CONSTANTS MaxScript = 0 MaxPause = 0 MaxN = 3 Dev = {"PathLen", "SkipCount"}
 INIT EnumInit
 NEXT Next
 INVARIANTS Complete
